@@ -51,6 +51,7 @@ PROBES = {
     "tuple-index": "t = (1, 2)\nmon.write(t[0] + t[1])",
     "default-arg": "def f(a, b=2):\n    return a + b\nq = f(1)\nmon.write(q)\nr = f(1, 5)\nmon.write(r)",
     "keyword-call": "def f(a, b):\n    return a * 10 + b\nq = f(b=3, a=1)\nmon.write(q)",
+    "recursion-local": "def walk(n):\n    if n > 0:\n        d = n * 2\n        r = walk(n - 1)\n        mon.write(d)\n    return n\nq = walk(3)\nmon.write(q)",
     "recursion": "def fact(n):\n    if n < 2:\n        return 1\n    return n * fact(n - 1)\nq = fact(5)\nmon.write(q)",
     "str-repeat": "mon.write(\"ab\" * 3)",
     "str-percent": "mon.write(\"%d-%d\" % (3, 4))",
@@ -134,5 +135,5 @@ PROBE_FINDINGS = {
     "round": "KF-round-semantics", "round-ndigits": "KF-round-semantics",
     "list-concat": "KF-sequence-operators", "list-repeat": "KF-sequence-operators", "list-max": "KF-sequence-operators", "list-sum": "KF-sequence-operators",
     "str-repeat": "KF-sequence-operators",
-    "default-arg": "KF-nested-def", "nested-def": "KF-nested-def", "recursion": "KF-nested-def",
+    "default-arg": "KF-nested-def", "nested-def": "KF-nested-def", "recursion": "KF-nested-def", "recursion-local": "KF-nested-def",
 }
